@@ -405,6 +405,42 @@ package transport
 //@   modifies c.closed
 //@   ensures [C18:close-tears-down] nC == 1 && err == nil
 
+// ReuseConnTransport.Close / QuicTransport.Close: closed for good after the first call (later calls do nothing), in
+// one critical section; the first call closes the socket of every connection the transport tracks (the QUIC
+// connection, if one is up) while holding the lock, so that no exchange can pick one up afterwards.
+//@ func (t *ReuseConnTransport) Close() (err error)
+//@   props C18
+//@   requires t != nil && rtInv(t) && forallkey(k, t.conns, k != nil && k.c != nil)
+//@   ghost nAcq int = 0
+//@   ghost held bool = false
+//@   ghost nSock int = 0
+//@   oncall Lock: nAcq = nAcq + 1
+//@   oncall Lock: held = true
+//@   oncall Unlock: held = false
+//@   oncall Close?: nSock = nSock + 1
+//@   modifies t.closed
+//@   ensures [C18:closed-for-good] t.closed && err == nil && !held && nAcq == 1
+//@   ensures [C18:second-close-does-nothing] old(t.closed) ==> nSock == 0
+//@   callsite Close?: [C18:tracked-sockets-closed-under-the-lock] held && !old(t.closed) && t.closed
+//@   loop 1:
+//@     modifies nothing
+//@     invariant held && t.closed && nSock >= 0 && (old(t.closed) ==> nSock == 0)
+
+//@ func (t *QuicTransport) Close() (err error)
+//@   props C18
+//@   requires t != nil && t.cancelCtx != nil
+//@   ghost nAcq int = 0
+//@   ghost held bool = false
+//@   ghost nConn int = 0
+//@   oncall Lock: nAcq = nAcq + 1
+//@   oncall Lock: held = true
+//@   oncall Unlock: held = false
+//@   oncall CloseWithError?: nConn = nConn + 1
+//@   modifies t.closed
+//@   ensures [C18:closed-for-good] t.closed && err == nil && !held && nAcq == 1
+//@   ensures [C18:connection-closed-once-by-the-first-close] nConn == ((!old(t.closed) && t.c != nil) ? 1 : 0)
+//@   callsite CloseWithError?: [C18:connection-closed-under-the-lock] held && arg0 == t.c
+
 // closing a transport (any implementation) does not touch its user's state: it closes its own connections
 //@ func (t Transport) Close() (err error)
 //@   trusted
